@@ -160,6 +160,7 @@ fn main() {
             "deep" => deep_case(p[1].parse().unwrap(), p[2].parse().unwrap()),
             "co" => coerce_case(&p[1], &p[2], if p.len() > 3 { &p[3] } else { "" }),
             "nt" => native_case(p[1].parse().unwrap(), &p[2]),
+            "tc" => typecheck_case(&p[1]),
             "rd" => refdecode_case(&p[1], &p[2], &p[3]),
             "rds" => refdecode_short(&p[1], &p[2], &p[3]),
             "h" => history_case(&p[1]),
@@ -216,6 +217,14 @@ fn quota_case(case: usize, dq: &str, sq: &str) -> String {
     }
 }
 
+
+// ---------------------------------------------------------------- parse + check_prog of a generated program (vc/typing_standin.py)
+fn typecheck_case(hextext: &str) -> String {
+    let text = String::from_utf8(hexd(hextext)).unwrap();
+    let prog = match text.parse::<candid_parser::IDLProg>() { Ok(p) => p, Err(_) => return "err".to_string() };
+    let mut env = candid::TypeEnv::new();
+    match candid_parser::check_prog(&mut env, &prog) { Ok(_) => "ok".to_string(), Err(_) => "err".to_string() }
+}
 
 // ---------------------------------------------------------------- native decoding against the spec's coercion (vc/native_standin.py)
 mod nat_ty {
